@@ -145,6 +145,9 @@ pub struct Res {
     /// (sender body, receiver bodies)
     pub watches: Vec<(usize, Vec<usize>)>,
     pub notifies: usize,
+    /// per watch channel: further bodies that start with a clone of the sender
+    #[serde(default)]
+    pub watch_tx_clones: Vec<Vec<usize>>,
 }
 
 #[derive(Clone, Debug, PartialEq, Eq, Serialize, Deserialize, Default)]
@@ -369,6 +372,11 @@ impl Ctx {
             }
             // the original receiver is dropped here (before any task runs): receiver_count = |rbs|
             drop(rx);
+            for b in r.watch_tx_clones.get(w).map(|v| v.as_slice()).unwrap_or(&[]) {
+                if *b != *tb && stash[*b].as_ref().unwrap().wtx[w].is_none() {
+                    stash[*b].as_mut().unwrap().wtx[w] = Some(tx.clone());
+                }
+            }
             stash[*tb].as_mut().unwrap().wtx[w] = Some(tx);
         }
         Arc::new(Ctx {
